@@ -332,7 +332,23 @@ pub struct MacroIter<R: Reader> {
 
 impl<R: Reader> MacroIter<R> {
     /// Advance the iterator to the next entry in the `.debug_macro` section.
+    ///
+    /// Returns `Ok(None)` at the end of the entries. After an error is returned,
+    /// all subsequent calls return `Ok(None)`.
     pub fn next(&mut self) -> Result<Option<MacroEntry<R>>> {
+        if self.input.is_empty() {
+            return Ok(None);
+        }
+        match self.parse_next() {
+            Ok(entry) => Ok(entry),
+            Err(e) => {
+                self.input.empty();
+                Err(e)
+            }
+        }
+    }
+
+    fn parse_next(&mut self) -> Result<Option<MacroEntry<R>>> {
         // DW_MACINFO_* and DW_MACRO_* have the same values, so we can use the same parsing logic.
         let macro_type = DwMacro(self.input.read_u8()?);
         match macro_type {
